@@ -1,5 +1,5 @@
 From GmVerif Require Import Base.ListX Base.Bytes Hash.MD Hash.SM3 Hash.SM3Proofs
-  Hash.SHA2 Hash.SHA2Proofs Hash.Hmac Hash.HmacProofs Hash.Instances.
+  Hash.SHA2 Hash.SHA2Proofs Hash.Hmac Hash.HmacProofs Hash.HmacWideProofs Hash.Instances.
 Local Open Scope nat_scope.
 
 Lemma sm3_len m : length (sm3 m) = 32.
@@ -126,4 +126,59 @@ Proof.
   destruct (hmac_generic_stream key chunks) as (E1 & E2 & E3 & E4).
   unfold hmacB_verify_sm3, hmacB_verify_sha1, hmacB_verify_sha224, hmacB_verify_sha256.
   rewrite <- E1, <- E2, <- E3, <- E4. repeat split; apply mac_verify_iff.
+Qed.
+
+(* ---------- HMAC over the 128-byte-block digests (hmac.c), premise: fewer than 2^64 blocks ---------- *)
+Definition ok128 (n : nat) : Prop := (N.of_nat (n / 128) < 2^64)%N.
+Lemma ok128_mono a b : a <= b -> ok128 b -> ok128 a.
+Proof.
+  unfold ok128. intros Hab Hb.
+  assert (a / 128 <= b / 128) by (apply Nat.div_le_mono; lia). lia.
+Qed.
+
+Lemma sha512_state_len iv m :
+  length iv = 8 ->
+  length (md_hash (list N) sha512_compress sha512_out iv 128 16 len128_spec 0 m) = 64.
+Proof.
+  intros Hiv. unfold md_hash, sha512_out.
+  set (s := foldn _ _ _ _ _ _).
+  assert (H : forall k st d, length st = 8 -> length (foldn (list N) sha512_compress 128 k st d) = 8).
+  { induction k as [|k IH]; intros st d Hs; cbn [foldn]; [exact Hs|].
+    apply IH. unfold sha512_compress, sha2_compress.
+    destruct st as [|a [|b [|c [|d0 [|e [|f [|g [|h [|]]]]]]]]]; try discriminate Hs.
+    destruct (fold_left _ _ _) as [[[[[[[A B] C] D] E] F] G] Hh]. reflexivity. }
+  assert (Hs : length s = 8) by (apply H; exact Hiv).
+  destruct s as [|a [|b [|c [|d0 [|e [|f [|g [|h [|]]]]]]]]]; try discriminate Hs.
+  reflexivity.
+Qed.
+Lemma sha512_len m : length (sha512 m) = 64.
+Proof. apply sha512_state_len. reflexivity. Qed.
+Lemma sha384_len m : length (sha384 m) = 48.
+Proof. unfold sha384. rewrite firstn_length, sha512_state_len by reflexivity. reflexivity. Qed.
+Lemma sha512_224_len m : length (sha512_224 m) = 28.
+Proof. unfold sha512_224. rewrite firstn_length, sha512_state_len by reflexivity. reflexivity. Qed.
+Lemma sha512_256_len m : length (sha512_256 m) = 32.
+Proof. unfold sha512_256. rewrite firstn_length, sha512_state_len by reflexivity. reflexivity. Qed.
+
+Lemma hmac_generic_stream_wide key chunks :
+  (N.of_nat ((length key + 192 + length (concat chunks)) / 128) < 2^64)%N ->
+  hmacB_sha384 key chunks = hmac_spec sha384 128 key (concat chunks) /\
+  hmacB_sha512 key chunks = hmac_spec sha512 128 key (concat chunks) /\
+  hmacB_sha512_224 key chunks = hmac_spec sha512_224 128 key (concat chunks) /\
+  hmacB_sha512_256 key chunks = hmac_spec sha512_256 128 key (concat chunks).
+Proof.
+  intros Hok. fold (ok128 (length key + 192 + length (concat chunks))) in Hok.
+  repeat split.
+  - apply hmacB_stream_wide with (hlen := 48) (ok := ok128);
+      [exact ok128_mono | intros c Hc; apply sha384_stream; exact Hc | exact sha384_len | lia
+      | eapply ok128_mono; [|exact Hok]; lia].
+  - apply hmacB_stream_wide with (hlen := 64) (ok := ok128);
+      [exact ok128_mono | intros c Hc; apply sha512_stream; exact Hc | exact sha512_len | lia
+      | eapply ok128_mono; [|exact Hok]; lia].
+  - apply hmacB_stream_wide with (hlen := 28) (ok := ok128);
+      [exact ok128_mono | intros c Hc; apply sha512_224_stream; exact Hc | exact sha512_224_len | lia
+      | eapply ok128_mono; [|exact Hok]; lia].
+  - apply hmacB_stream_wide with (hlen := 32) (ok := ok128);
+      [exact ok128_mono | intros c Hc; apply sha512_256_stream; exact Hc | exact sha512_256_len | lia
+      | eapply ok128_mono; [|exact Hok]; lia].
 Qed.
